@@ -6,6 +6,10 @@ CHECKS = {
    technique="bounded exhaustive enumeration: every function/aggregate variant x argument boxes on a bound grid x every grid point in the box, on the real code",
    text="Exhaustive exploration of the real Function::super_image / Function::value (and Expr::super_image / Expr::value for depth-2 trees) over all function and aggregate variants, all argument boxes built from a bound grid (unions of intervals, optional, int/float mixes, i64/f64 extremes) and every grid point inside each box; the oracle is an independent membership function. Sound for the grid; says nothing outside it.",
    note="Trusted: the reference membership (refm.rs, 150 lines), the grids. A panic/Err of value() is 'does not evaluate'. Float membership is up to 1e-9 relative tolerance."),
+ "C11": dict(level="model_checking", design="2/C11",
+   technique="explicit-state BFS (stateright) over interval-set operation histories on the real Intervals<B> with every transition compared to an independent interval-list model; exhaustive type-pair x value enumeration for the lattice laws",
+   text="(a) stateright breadth-first search over all histories of union_interval / intersection_interval / union / intersection / to_simple_superset / into_interval on the real Intervals<B> (B = i64, f64, String, bool), from empty, full and 125/126/127-interval seeds so that one or two steps cross the real capacity of 128; every transition is executed on the implementation and its result must be sorted, disjoint, within capacity and contain the exact result computed by an independent interval-list reference. Thorough runs to the fixpoint (all reachable states). (b) All ordered pairs of an enumerated universe of data types (all 21 variants, nesting depth <= 2) x a value universe: subset, union, intersection and own-type laws.",
+   note="Trusted: the reference interval list (40 lines) and the reference membership functions (refm.rs). Cross-variant membership is taken modulo the library's own value conversion. Quick bounds the history depth to 5."),
 }
 NOT_YET = {}
 def main():
